@@ -201,6 +201,28 @@ def run(ctx):
     drive.for_each_case(ctx, 'dup', max(20, ctx.budget // 5), body_dup,
                         gen=lambda c, r: gentypes.gen_tagged(r, 0))
 
+    # a duplicate that arises by inheritance: a subclass of a variant inherits its tag value; listing both is a duplicate too
+    def body_dup_inherited(i, rng, ty, T):
+        from pane.annotations import Tagged
+        tagv = rng.choice(('shape', 1, True, 'v1'))
+        Base = type(f"DB{i}", (env.PaneBase,), {'__annotations__': {'kind': t.Literal[tagv], 'a': int}, 'kind': tagv, 'a': 0, '__module__': __name__})
+        Other = type(f"DO{i}", (env.PaneBase,), {'__annotations__': {'kind': t.Literal['other'], 'b': int}, 'kind': 'other', 'b': 0, '__module__': __name__})
+        Sub = type(f"DS{i}", (Base,), {'__annotations__': {'r': float}, 'r': 1.0, '__module__': __name__})
+        ext = rng.choice((False, True, ('t', 'c')))
+        for order in ((Base, Other, Sub), (Sub, Other, Base), (Base, Sub)):
+            U = t.Annotated[t.Union[order], Tagged('kind', ext)]
+            if t.get_args(t.get_args(U)[0]) != tuple(order):
+                continue
+            out = observe(env.make_converter, U)
+            ctx.case(('duplicate-tags-inherited', str(ext), out.kind))
+            if out.kind == 'value' or not isinstance(out.exc, TypeError):
+                ctx.violation('duplicate-tags-refused', 'dup-inherited', i, {'variants': [c.__name__ for c in order], 'tag': repr(tagv), 'layout': str(ext),
+                                                                             'make_converter': out.brief()}, mech='duplicate-tags-accepted:inherited-tag')
+                return
+            ctx.count('duplicate_tag_types_refused')
+
+    drive.for_each_case(ctx, 'dup-inherited', max(20, ctx.budget // 10), body_dup_inherited, gen=lambda c, r: Ty('int'))
+
     # class-attribute style variants (as in the repository's tests): int / float / dict subclasses carrying `tag`
     def body_attr(i, rng, ty, T):
         V1 = type('AV1', (int,), {'tag': 3})
